@@ -61,4 +61,30 @@ def run(ctx):
                           [G_try(r"SystemModuleMixer::assert_can_add_event$")], "add_event_unchecked")
         else:
             ctx.ob("add_event|count-check-first", False, "add_event does not call assert_can_add_event + add_event_unchecked", b.loc())
+    ctx.rule("T4 + T3 pairing across two sites: add_event_unchecked is called only by the checked wrapper and by SystemCostingApi::lock_fee; "
+             "lock_fee's unchecked add is covered by a reservation in start_lock_fee — every path of start_lock_fee to Ok passes "
+             "assert_can_add_event()? or emits through the checked path (emit_event_internal)")
+    unchecked = who_calls(F, r"SystemModuleMixer::add_event_unchecked$")
+    check_who_may(ctx, "who-adds-events-unchecked", unchecked, {
+        r"SystemModuleMixer::checked_add_event$": "the checked wrapper (assert_can_add_event first)",
+        r"SystemCostingApi<[^>]*>>::lock_fee$": "LockFeeEvent after the force-written vault take; the slot is reserved by start_lock_fee (checked below)",
+    }, "caller of add_event_unchecked")
+    ctx.floor("who-adds-events-unchecked", len(unchecked), 2)
+    sl = [x for x in F.fns if re.search(r"SystemCostingApi<[^>]*>>::start_lock_fee$", x)]
+    ctx.ob("start_lock_fee|anchor", len(sl) == 1, f"start_lock_fee impls: {len(sl)}")
+    for x in sl[:1]:
+        b = the_body(ctx, x, r"::apply_execution_cost$")      # (#[trace_resources] moves the body into a closure)
+        if b is None:
+            ctx.ob("start_lock_fee|reserves-the-event-slot", False, "body with the up-front costing not found")
+            continue
+        oks = b.ok_exits()
+        tg = b.try_guards(r"SystemModuleMixer::assert_can_add_event$")
+        pe = [(sb, p) for sb, ps, fs, cbb in tg for p in ps]
+        emit = call_blocks(b, r"::emit_event_internal$")
+        region = b.reach((0,), blocked_edges=pe, blocked_blocks=emit)
+        ok = bool(oks) and bool(pe) and not (region & set(oks))
+        ctx.ob("start_lock_fee|reserves-the-event-slot", ok,
+               "every path to Ok reserves the LockFeeEvent slot (assert_can_add_event) or emits through the checked path" if ok else
+               "a path to Ok neither reserves the event slot nor emits through the checked path: lock_fee's unchecked LockFeeEvent can exceed max_number_of_events",
+               b.loc())
     ctx.assume("boundary exactness (> vs >=) is value-level and not decided")
